@@ -8,7 +8,7 @@ mod num;
 mod query;
 mod records;
 
-use futures::{Stream, TryStreamExt};
+use futures::{Stream, StreamExt, TryStreamExt, stream};
 use noodles_core::Region;
 use noodles_fasta as fasta;
 use noodles_sam as sam;
@@ -383,12 +383,19 @@ where
         let offset = index
             .iter()
             .find(|record| record.reference_sequence_id().is_none())
-            .map(|record| SeekFrom::Start(record.offset()))
-            .unwrap_or(SeekFrom::End(0));
+            .map(|record| record.offset());
 
-        self.get_mut().seek(offset).await?;
+        // A file that has no unplaced records has no index record for them, i.e., there is
+        // nothing to read. The end of the stream is not the start of a container.
+        let records = match offset {
+            Some(position) => {
+                self.get_mut().seek(SeekFrom::Start(position)).await?;
+                Some(self.records(header))
+            }
+            None => None,
+        };
 
-        Ok(Box::pin(self.records(header).try_filter_map(
+        Ok(Box::pin(stream::iter(records).flatten().try_filter_map(
             |record| async {
                 if record.flags().is_unmapped() {
                     Ok(Some(record))
